@@ -33,6 +33,11 @@ CHECKS["C18"] = dict(level="model_checking", design="5 C18",
    note="The scan is held by blocking its row callback after flat row j = 1..4; inserts during the scan are confirmed applied (rs.apply) before the scan is released. Free-running concurrent scans are not part of this check.",
    technique="TLA+ trace validation (TLC) of gate-scheduled executions of the real code + TLC-simulated interleavings")
 
+CHECKS["C04"] = dict(level="model_checking", design="5 C04",
+   text="Every query action of the specification (scan start, result, any other query) leaves all variables of spec/Store.tla unchanged; the binding decides the property: generated queries (select lists with derived and shifted fields, relative and absolute ASOF/UNTIL incl. ranges ending before the newest stored period, grouping, period multiples, stride, crosstab, FROM- and IN-sub-queries, having, order, limit, with and without memstore) are run between the steps of TLC-simulated ingest/flush/crash behaviours on the real database, and the probes before and after each of them and after the next flush are bound by trace validation to the specification's (unchanged) view; the caught-up end state is compared with the reference bag.",
+   note="A modification is observed through SELECT * probes (every field, period and key, memstore-inclusive and disk-only). The results of the generated queries themselves are not judged here (C06-C09).",
+   technique="TLA+ trace validation (TLC) of gate-scheduled executions with generated queries + TLC-simulated behaviours")
+
 NOT_YET = {}
 
 
